@@ -29,6 +29,7 @@ Grammar (line oriented, '#' at column 0 starts a comment outside text sections):
       @timeout seconds
       @tier quick|thorough
       @canary on|off
+      @split-backend <regex>=<backends>    obligations whose name matches regex are decided by these back ends (separate cbmc run), the rest by @backend
       @no-loop-contracts                   splice the bodies WITHOUT their @loop clauses (bounded concrete companion of a loop-contract proof; needs @unwindset)
       @allow-wrap <cname> ...              bodies in which unsigned wrap-around is intended (pragma disables the check there)
       @harness ... (C text; must define void verif_harness(void))
@@ -53,7 +54,7 @@ class Proof:
         self.bounded = None; self.complete_unwind = None; self.defines = []; self.timeout = 600
         self.tier = 'quick'; self.canary = True; self.harness = None; self.extra = ''; self.origin = None
         self.replay = None; self.note = ''; self.nondet_static = True; self.object_bits = None
-        self.expect_unreachable = False; self.includes = []; self.allow_wrap = []; self.no_loop_contracts = False
+        self.expect_unreachable = False; self.includes = []; self.allow_wrap = []; self.no_loop_contracts = False; self.split = None
 
 class Spec:
     def __init__(self):
@@ -142,6 +143,7 @@ class Spec:
                         elif k == '@note': p.note = ' '.join(v)
                         elif k == '@allow-wrap': p.allow_wrap += v
                         elif k == '@no-loop-contracts': p.no_loop_contracts = True
+                        elif k == '@split-backend': p.split = (v[0].split('=')[0], v[0].split('=')[1])
                         elif k == '@replay': p.replay = v
                         elif k == '@include': p.includes += v
                         elif k == '@harness': sec = 'harness'; p.harness = ''
